@@ -131,52 +131,74 @@ Definition classes (Sc : schema) (D : document) (E : env) (sp : response) (m_err
   (if existsb (is_sym "leaf-family") flags then ["leaf-coercion-family"] else []) ++
   (if errs && (propagated || multi || short) then ["nontrivial"] else []).
 
+(** one case: the operation the reference selects is judged by the oracle and the executor model
+    ([run_request]: GetOperation included) is compared; when the reference determines no operation
+    the response must be "no data, exactly one error" *)
+Definition check_selected (Sc : schema) (R : request_doc) (opname : name) (D : document) (E : env)
+           (W : outcome) (obs : observed) (flags : list sexp) : sexp :=
+  let fuel := default_fuel D in
+  let model := run_request fixed Sc R opname E fuel W in
+  let multi := Nat.ltb 1 (List.length (r_ops R)) in
+  if negb (type_names_okb Sc) then v_bad "type-name-with-zero-byte"
+  else if negb (doc_positions_okb D) then v_oracle_fail "parser-positions-not-distinct" []
+  else if negb (dirs_evaluable D E) then
+    (* outside the property: a @skip/@include condition without a boolean value (a
+       variable without value in an unvalidated document; an explicit null for a
+       nullable variable with a default in a validated one).  The executor model —
+       error for the directive, selection left out, once per cache miss — is compared *)
+    match model with
+    | OutOfFuel => v_bad "out-of-fuel"
+    | m => if agrees m obs then v_ok ["directive-not-evaluable"]
+           else v_mismatch "response-directive-not-evaluable" [tag "model" [of_run m]]
+    end
+  else if negb (doc_ok Sc D E fuel fuel) then
+    (* outside the property: only a document handed over without validation may get
+       here; the executor model is still compared (blank keys, panics) *)
+    if existsb (is_sym "unvalidated") flags then
+      match model with
+      | OutOfFuel => v_bad "out-of-fuel"
+      | m => if agrees m obs then v_ok ["unvalidated-not-doc-ok"]
+             else v_mismatch "response-unvalidated" [tag "model" [of_run m]]
+      end
+    else v_oracle_fail "validated-document-not-doc-ok" []
+  else
+    let sp := exec_spec Sc D E fuel W in
+    match oracle sp obs with
+    | Some key => v_oracle_fail key [tag "reference" [of_option of_json (option_map canon (data sp));
+                                                      of_list of_error (all_errors sp)]]
+    | None =>
+        match model with
+        | OutOfFuel => v_bad "out-of-fuel"
+        | Panic => v_mismatch "response" [tag "model" [of_run model]]
+        | Done _ m_errs =>
+            if agrees model obs then
+              v_ok (classes Sc D E sp m_errs flags ++ (if multi then ["several-operations"] else []))
+            else v_mismatch "response" [tag "model" [of_run model]]
+        end
+    end.
+
+Definition check_refused (Sc : schema) (R : request_doc) (opname : name) (E : env)
+           (W : outcome) (obs : observed) : sexp :=
+  match obs with
+  | ObsDone None [e] =>
+      if agrees (run_request fixed Sc R opname E 0 W) obs then
+        v_ok ["operation-refused"; match opname with [] => "no-operation-name" | _ => "operation-name-without-match-or-ambiguous" end]
+      else v_mismatch "response-refused" [tag "model" [of_run (run_request fixed Sc R opname E 0 W)]]
+  | _ => v_oracle_fail "undetermined-operation-not-refused" []
+  end.
+
 Definition check (c : sexp) : sexp :=
   match tagged "case" c with
   | Some [s; d; e; w; o; SL flags] =>
-      match dec_schema s, dec_doc d, dec_env e, dec_outcome w, dec_obs o with
-      | Some Sc, Some D, Some E, Some W, Some obs =>
+      match dec_schema s, dec_request d, dec_env e, dec_outcome w, dec_obs o with
+      | Some Sc, Some (R, opname), Some E, Some W, Some obs =>
           match obs with
           | ObsRejected => v_oracle_fail "valid-document-rejected" []
           | _ =>
-              let fuel := default_fuel D in
-              if negb (type_names_okb Sc) then v_bad "type-name-with-zero-byte"
-              else if negb (doc_positions_okb D) then v_oracle_fail "parser-positions-not-distinct" []
-              else if negb (dirs_evaluable D E) then
-                (* outside the property: a @skip/@include condition without a boolean value (a
-                   variable without value in an unvalidated document; an explicit null for a
-                   nullable variable with a default in a validated one).  The executor model —
-                   error for the directive, selection left out, once per cache miss — is compared *)
-                match run fixed Sc D E fuel W with
-                | OutOfFuel => v_bad "out-of-fuel"
-                | m => if agrees m obs then v_ok ["directive-not-evaluable"]
-                       else v_mismatch "response-directive-not-evaluable" [tag "model" [of_run m]]
-                end
-              else if negb (doc_ok Sc D E fuel fuel) then
-                (* outside the property: only a document handed over without validation may get
-                   here; the executor model is still compared (blank keys, panics) *)
-                if existsb (is_sym "unvalidated") flags then
-                  match run fixed Sc D E fuel W with
-                  | OutOfFuel => v_bad "out-of-fuel"
-                  | m => if agrees m obs then v_ok ["unvalidated-not-doc-ok"]
-                         else v_mismatch "response-unvalidated" [tag "model" [of_run m]]
-                  end
-                else v_oracle_fail "validated-document-not-doc-ok" []
-              else
-                let sp := exec_spec Sc D E fuel W in
-                match oracle sp obs with
-                | Some key => v_oracle_fail key [tag "reference" [of_option of_json (option_map canon (data sp));
-                                                                  of_list of_error (all_errors sp)]]
-                | None =>
-                    let m := run fixed Sc D E fuel W in
-                    match m with
-                    | OutOfFuel => v_bad "out-of-fuel"
-                    | Panic => v_mismatch "response" [tag "model" [of_run m]]
-                    | Done _ m_errs =>
-                        if agrees m obs then v_ok (classes Sc D E sp m_errs flags)
-                        else v_mismatch "response" [tag "model" [of_run m]]
-                    end
-                end
+              match s_get_operation R (opname_of opname) with
+              | Some op => check_selected Sc R opname (doc_of R op) E W obs flags
+              | None => check_refused Sc R opname E W obs
+              end
           end
       | None, _, _, _, _ => v_bad "schema"
       | _, None, _, _, _ => v_bad "doc"
